@@ -85,13 +85,19 @@ def mirror(f, r, cfg, prior=b""):
     if a.proto in (P_TCP, P_UDP) and "sp" in a and "sp" in q:
         if a.dp != q.sp:
             errs.append("dport %d is not the request's source port %d" % (a.dp, q.sp))
+        ks = stun_change_port_counts(q.data)
+        if prior:
+            ks |= stun_change_port_counts(prior + q.data)
         if a.sp != q.dp:
-            ks = stun_change_port_counts(q.data)
-            if prior:
-                ks |= stun_change_port_counts(prior + q.data)
             ok = any(a.sp == (q.dp + k) & 0xFFFF for k in ks if k > 0)
             if not ok:
                 errs.append("sport %d is not the request's destination port %d" % (a.sp, q.dp))
+        elif ks == {1} and a.get("data") and len(a.data) >= 20 and a.data[:2] == b"\x01\x01":
+            # the reply *is* a STUN success response to a request with exactly one change-port CHANGE-REQUEST
+            # (under both attribute walks): it has to come from the next port
+            req = q.data if len(q.data) >= 20 and a.data[4:20] == q.data[4:20] else (prior + q.data)
+            if len(req) >= 20 and req[:2] == b"\x00\x01" and a.data[4:20] == req[4:20]:
+                errs.append("stun_port change-port request to port %d answered from port %d instead of %d" % (q.dp, a.sp, (q.dp + 1) & 0xFFFF))
     return errs
 
 
